@@ -50,6 +50,28 @@ Theorem C01_sfac_lines_shape es : Forall (fun e => sfac_params e <> []) es ->
 Proof. exact (sfac_lines_shape es). Qed.
 Print Assumptions C01_sfac_lines_shape.
 
+Theorem C01_u_lossless u i : length u = 6%nat -> (aniso_line u = false -> scaled 5 (nth 1 u 0) = 0%Z) -> (i < 6)%nat ->
+  Qabs (nth i (u_read (u_written u)) 0 - nth i u 0) <= 1 # 200000.
+Proof. exact (u_lossless u i). Qed.
+Print Assumptions C01_u_lossless.
+
+Theorem C01_u_flat_refuted : exists u, length u = 6%nat /\ aniso_line u = false /\
+  Qabs (nth 1 (u_read (u_written u)) 0 - nth 1 u 0) == 1 # 25.
+Proof. exact (u_flat_refuted ). Qed.
+Print Assumptions C01_u_flat_refuted.
+
+Theorem C01_old_threshold_refuted : exists u, length u = 6%nat /\ aniso_line_old u = false /\ aniso_line u = true /\ scaled 5 (nth 1 u 0) = 0%Z /\
+  ~ Qabs (0 - nth 3 u 0) <= 1 # 200000.
+Proof. exact (old_threshold_refuted ). Qed.
+Print Assumptions C01_old_threshold_refuted.
+
+Theorem C01_u_written_examples :
+  u_written [1 # 20; 4 # 1000000; 4 # 1000000; 4 # 1000000; 4 # 1000000; 4 # 1000000] = [5000%Z]
+  /\ u_written [1 # 20; 1 # 25; 3 # 100; 0; -12 # 1000000; 0] = [5000; 4000; 3000; 0; -1; 0]%Z
+  /\ Forall2 Qeq (u_read [5000%Z]) [1 # 20; 0; 0; 0; 0; 0].
+Proof. exact (u_written_examples ). Qed.
+Print Assumptions C01_u_written_examples.
+
 Theorem C01_roundtrip_example :
   let items := [[lit "SADI"; lit "0.02"; lit "C1"; lit "C2"]; map lit ["FLAT"; "C1_$1"; "C2"; "C3"; "C4"; "C5"; "C6"; "C7"; "C8"; "C9"; "C10"; "C11"; "C12";
                  "C13"; "C14"; "C15"; "C16"; "C17"; "C18"; "C19"; "C20"; "C21"; "C22"]%string] in
